@@ -167,6 +167,21 @@ package server
 //@   at-return requires ret0 != nil && !ret0.IsWithdraw && !peer.isRouteServerClient() && isASLoop(peer, ret0) ==> ret0.IsLocal() && peer.allowAsPathLoopLocal()
 //@   at-return requires ret0 != nil && !ret0.IsWithdraw && peer.IsFamilyEnabled(bgp.RF_RTC_UC) && ret0.GetFamily() != bgp.RF_RTC_UC ==> peer.interestedIn(ret0)
 
+// from C09: "received routes containing the local AS beyond allow-own-as ... are not used": the occurrence count runs
+// over the whole AS_PATH (it never restarts between segments), every member adds one per match with the local AS
+// and one per match with a distinct confederation identifier, and the route is refused as soon as, and only
+// when, the count exceeds the limit
+//@ props C09
+//@ func hasOwnASLoop
+//@   requires asPath != nil
+//@   math-int
+//@   claims step at-return inv-init inv-keep
+//@   loop 0 step cnt >= header(cnt)
+//@   loop 1 invariant cnt >= pre(cnt)
+//@   loop 1 step cnt - header(cnt) == (as == ownAS ? 1 : 0) + (confedEnabled && as == confedID && confedID != ownAS ? 1 : 0)
+//@   loop 1 step cnt > header(cnt) ==> cnt <= limit
+//@   at-return requires ret0 ==> cnt > limit
+
 // =============================================================================================
 // C14 - where the conversions for a 2-octet-AS peer are invoked
 // =============================================================================================
